@@ -4,8 +4,8 @@ CONSTANTS
   MaxPackets = 4
   NR = 1
   RFns <- RFnsTcp
-  Crtps <- CrtpsSim
-  MaxSends = 3
+  SendSets <- SendSim
+  MaxSends = 5
   Mode = "tcp"
   LateRegister = FALSE
   Bug = "none"
